@@ -191,7 +191,7 @@ def main():
                 ctx.boost = max(ctx.boost, 4)
         except Exception:
             cov['regenerated_codec'] = {'status': 'internal: ' + traceback.format_exc()[-300:]}
-    if prop in ('C01', 'C02', 'C05', 'C11', 'C12', 'C13', 'C18') and not replay:
+    if prop in ('C01', 'C02', 'C05', 'C11', 'C12', 'C13', 'C17', 'C18') and not replay:
         try:
             cov['regenerated_reader_and_hiding'] = srctie2.linked_vec_check(REPO, os.path.join(workdir, 'linkedvec'))
             if cov['regenerated_reader_and_hiding'].get('status') != 'holds':
